@@ -421,6 +421,7 @@ def pred_c05(ops, impl):
 def _pred_c05_trace(ops, impl):
     b = binds_of(ops)
     blocks = {}
+    chains = {}
     app = "1"
     default = (12345, 1571797419879305533)
     pending = None
@@ -436,16 +437,24 @@ def _pred_c05_trace(ops, impl):
         elif t[0] == "next-block" and out == "ok":
             h, tm = blocks.get(app, default)
             blocks[app] = (h + 1, tm + 5_000_000_000)
+        elif t[0] == "block-chain" and out == "ok" and len(t) >= 2:
+            chains[app] = t[1]
         elif t[0] in TX_OPS:
             pending = (n, parse_sx(op))
         elif t[0] == "trace" and out.startswith("trace["):
             body = out[6:-1]
             entries = [e for e in body.split(" || ") if e]
             h, tm = blocks.get(app, default)
+            cid = chains.get(app, "cosmos-testnet-14002")
             for e in entries:
                 f = e.split("|", 1)[0].split(" ")
                 if len(f) >= 7 and (f[5] != str(h) or f[6] != str(tm)):
                     return "trace after op %d: contract %s was shown block (%s,%s) but the App's block is (%d,%d)" % (n, f[0], f[5], f[6], h, tm)
+                # the chain id the contract was told (noted as `cid=…` when it is not the default one)
+                notes = e.split("|", 1)[1] if "|" in e else ""
+                told = notes.split(";", 1)[0][4:] if notes.startswith("cid=") else "cosmos-testnet-14002"
+                if len(f) >= 7 and told != cid:
+                    return "trace after op %d: contract %s was told chain id %s but the App's block has chain id %s" % (n, f[0], told, cid)
             if pending and entries:
                 pn, items = pending
                 if items and items[0] == "exec" and len(items) > 2 and isinstance(items[2], list) and items[2] and items[2][0] == "exec":
@@ -489,7 +498,7 @@ def pred_c11(ops, impl):
         if t[0] == "app":
             app = t[1]
         cur = ids.setdefault(app, set())
-        if t[0] in ("store", "store-w", "store-c", "store-as", "dup", "store-id"):
+        if t[0] in ("store", "store-w", "store-n", "store-c", "store-as", "dup", "store-id"):
             if out.startswith("id "):
                 i = int(out.split()[1])
                 if i in cur:
